@@ -2,7 +2,7 @@
    Only restatements; proofs are in C11/Proofs.v. Spec vocabulary: C11/Spec.v. *)
 From Coq Require Import List NArith ZArith Bool String Ascii Lia.
 From T4V Require Import Base.Str C11.Model C11.Spec C11.Proofs C11.LexProofs C11.LexSound C11.Layout C11.Pipeline C11.Sound C11.Complete C11.Loop C11.Card C11.Handover C11.EndToEnd C11.Regex.
-From T4V Require C11.Exec C11.RegexProofs C15.Model.
+From T4V Require C11.Exec C11.RegexProofs C11.RegexBound6 C15.Model.
 From T4V Require Import C11.LinkC15.
 Import ListNotations.
 Close Scope string_scope.
@@ -319,6 +319,13 @@ Theorem C11_get_ast2_eq_bounded : forall s : String.string, (String.length s <= 
   (forall c, In c (String.list_ascii_of_string s) -> In c Exec.alpha3) -> get_ast2 s = get_ast s.
 Proof. exact RegexProofs.get_ast2_eq_short. Qed.
 Print Assumptions C11_get_ast2_eq_bounded.
+
+(* ... and on every string of length <= 6 (1 111 111 strings: ten shards by first
+   character, each by computation, combined in RegexBound6.v) *)
+Theorem C11_get_ast2_eq_bounded6 : forall s : String.string, (String.length s <= 6)%nat ->
+  (forall c, In c (String.list_ascii_of_string s) -> In c Exec.alpha3) -> get_ast2 s = get_ast s.
+Proof. exact RegexBound6.get_ast2_eq_len6. Qed.
+Print Assumptions C11_get_ast2_eq_bounded6.
 
 (* ---- cellcard.split on every cell card ([split_card_full]: three-field
    check, then the LIKE branch = C15's model of re_likebut, else split_card) ---- *)
